@@ -533,6 +533,37 @@ fn run_attempt(
                             if *e - prev >= 2 {
                                 local.count("events.advanced_by_two_or_more");
                             }
+                            // boundary evidence: budgets met exactly / exceeded by exactly one
+                            let sum = |upto: u64| -> (u128, u128) {
+                                let mut g = 0u128;
+                                let mut t = 0u128;
+                                let mut h = prev;
+                                while h < upto {
+                                    h += 1;
+                                    let (cg, ct) = cost_map.get(&h).cloned().unwrap_or_default();
+                                    g += cg as u128;
+                                    t += ct as u128;
+                                }
+                                (g, t)
+                            };
+                            if *e > prev {
+                                let (g, t) = sum(*e);
+                                if g == a.gas_limit as u128 && g > 0 {
+                                    local.count("boundary.gas_sum_equals_limit");
+                                }
+                                if t == TX_LIMIT {
+                                    local.count("boundary.tx_sum_equals_limit");
+                                }
+                            }
+                            if *e < a.finalized {
+                                let (g, t) = sum(*e + 1);
+                                if g == a.gas_limit as u128 + 1 {
+                                    local.count("boundary.gas_next_exceeds_by_one");
+                                }
+                                if t == TX_LIMIT + 1 {
+                                    local.count("boundary.tx_next_exceeds_by_one");
+                                }
+                            }
                         }
                     }
                     Expect::NotJudged(why) => local.count(&format!("not_judged.{why}")),
@@ -715,7 +746,7 @@ pub fn run(args: &Args, report: &Report) {
     drop(rt);
 
     let shards = 64usize;
-    let sessions_per_shard: usize = args.by_tier(400, 6_000);
+    let sessions_per_shard: usize = args.by_tier(4_000, 60_000);
     let report2 = report.clone();
     let seed = args.seed;
     run_shards(report, args, shards, move |shard, s| {
@@ -759,7 +790,7 @@ pub fn run(args: &Args, report: &Report) {
                 if a.finalized > prev {
                     report2.distinct(&shape);
                 }
-                if n < 2 && report2.wants_sample() && a.finalized > prev + 1 {
+                if n < 2 && report2.wants_sample() && a.finalized.saturating_sub(prev) > 1 {
                     report2.sample(json!({"parent_da": prev.to_string(), "attempt": a.to_json(), "expected": format!("{want:?}")}));
                 }
             }
@@ -769,9 +800,13 @@ pub fn run(args: &Args, report: &Report) {
     });
 
     if st.is_none() {
-        report.require("attempts", args.by_tier(60_000, 900_000));
-        report.require("outcome.produced", args.by_tier(30_000, 400_000));
-        report.require("outcome.failed", args.by_tier(5_000, 50_000));
+        report.require("attempts", args.by_tier(600_000, 9_000_000));
+        report.require("outcome.produced", args.by_tier(300_000, 4_000_000));
+        report.require("outcome.failed", args.by_tier(50_000, 500_000));
+        report.require("boundary.gas_sum_equals_limit", 3_000);
+        report.require("boundary.gas_next_exceeds_by_one", 1_000);
+        report.require("boundary.tx_sum_equals_limit", 1_000);
+        report.require("boundary.tx_next_exceeds_by_one", 1_000);
         report.require("expected.reached_finalized", 5_000);
         report.require("expected.stopped_by_gas", 3_000);
         report.require("expected.stopped_by_txs", 1_000);
